@@ -324,7 +324,7 @@ class Run:
             InjectedTwoArgs(7, f"injected {nid}") if kind == "exc2" else InjectedBase(f"injected-base {nid}")
         self.injected[(op, nid)] = e
         self.fired.append((flt["when"], kind))
-        self.sim.ev("fault", self.rt.tok_op and None, nid, flt["when"], kind)
+        self.sim.ev("fault", self.rt.cur_token(), nid, flt["when"], kind)
         raise e
 
     # ------------------------------------------------------------------ ops
@@ -475,7 +475,7 @@ class Run:
         if "nodes" in conf:
             nodes = {}
             for a, v in conf["nodes"]:
-                nodes[self.alias(inst, a)] = v
+                nodes[self.alias(inst, a)] = copy.deepcopy(v)   # a fresh object per operation (tawazi may keep / change it)
             out["nodes"] = nodes
         return out
 
@@ -487,9 +487,17 @@ class Run:
 
         async def one(j: int, cl: dict) -> None:
             seams.CUR_OP.set((c, i, j))
-            run.op_inst[(c, i, j)] = cl["inst"]
+            if "ex" in cl:
+                if cl["ex"] not in run.executors:
+                    results[j] = ("skipped", None)
+                    return
+                target = run.executors[cl["ex"]]
+                run.op_inst[(c, i, j)] = run.ex_inst[cl["ex"]]
+            else:
+                target = run.instances[cl["inst"]]
+                run.op_inst[(c, i, j)] = cl["inst"]
             try:
-                results[j] = ("ok", await run.instances[cl["inst"]](*[lit(a) for a in cl["args"]]))
+                results[j] = ("ok", await target(*[lit(a) for a in cl["args"]]))
             except (SimAbort, SimLivelock):
                 raise
             except asyncio.CancelledError:
@@ -551,6 +559,8 @@ class Run:
     # ------------------------------------------------------------------ run
     def client_fn(self, c: int, ops: List[dict]) -> Any:
         def fn() -> None:
+            if self.scn.get("same_thread_names"):
+                threading.current_thread().name = "worker_0"   # thread names are not unique in general
             for i, op in enumerate(ops):
                 seams.CUR_OP.set((c, i, 0))
                 self.sim.ev("op_begin", c, i, op["op"])
@@ -575,6 +585,8 @@ class Run:
         scn = self.scn
         prev_debug = twz_cfg.RUN_DEBUG_NODES
         twz_cfg.RUN_DEBUG_NODES = bool(scn.get("debug_on", False))
+        prev_profile = twz_cfg.TAWAZI_PROFILE_ALL_NODES
+        twz_cfg.TAWAZI_PROFILE_ALL_NODES = bool(scn.get("profile_all", False))
         seams.set_runtime(self.rt)
         if self.watchdog:
             seams.enable_watchdog(scn.get("branch_cap") or 20000 * (sum(len(d["stmts"]) for d in self.spec["dags"].values()) + 5))
@@ -633,6 +645,7 @@ class Run:
                             pass
                 seams.set_runtime(None)
                 twz_cfg.RUN_DEBUG_NODES = prev_debug
+                twz_cfg.TAWAZI_PROFILE_ALL_NODES = prev_profile
                 if self.tmpdir is not None:
                     shutil.rmtree(self.tmpdir, ignore_errors=True)
         harness_err = [p for p in self.sim.parts if p.error is not None and not isinstance(p.error, SimLivelock)]
